@@ -8,18 +8,25 @@ A *case* is a JSON-able dict:
                 "consts": [name..], "strs": [name..], "aliases": [name..],
                 "hosts": [[name, id|None]..], "modules": [[name, id|None]..], "structs": [name..],
                 "msgs": [["m", name, id|None, "sig"|"def"] | ["r", entries|None]]}]}
-`how` in rel | dot | abs | dotdot | symlink  — the way the import string is written;
+`how` — the way the import string is written: rel | dot | abs | dotdot | symlink | dotdot_missing (`nosuch/../x`) | dslash
+(`a//b`) | abs_dotdot | abs_dslash (`//abs`) | through_file (`me.yaml/../x`) | trail_dot (`x.yaml/.`) | up_down (`../../..` to the
+root and down again);
 reserved `entries`: list of int | str | None (None = a float, "other").
 
-Grammar sent to `drv_registry` (one block per case; files in index order, the three shipped core files appended
-when `core` is on):
-    CASE <id> <coreOn> <maxMsg> <root> <coreIdx>
-    FILE <coreName 0|1> <empty 0|1>
-    M <name>..   I f<n>|missing|dir|badsuffix ..   C/S/A/T <name>..   H/D <name>=<int|?>..
+Grammar sent to `drv_registry` (one block per case; files in index order, the shipped core files appended).  The model
+resolves every import text itself (Model/ImportPath.lean) — the harness only describes the file system it built:
+    PCASE <id> <coreOn> <maxMsg>
+    CWD <path>   ROOT <text given to Parser.parse>   COREPATH <path>          (6 hex digits per character)
+    DIR <path>   LINK <link path> <target path>   OTHER <path of a regular non-definition file>
+    PFILE <resolved absolute path> <empty 0|1>
+    IT <import text>..      M <name>..   C/S/A/T <name>..   H/D <name>=<int|?>..
     G <name>=<int|?> | _R=! | _R=<N<int>|S<hex>|O>,...
     OBS ok | OBS err <ExceptionClass>
     TM/TC/TS/TA/TT <name>..  TH/TD/TG <name>=<int>..          registered tables, insertion order
     END
+One `_RESERVED_` entry alone (the regular expression of handle_reserve, Model/ResRegex.lean):
+    CASE <id> / RX <maxMsg> <N<int>|S<hex>|O> <none|start:end as re.search finds them> <err:<Class>|ok:<name>=<id>,..|ok:-> / END
+    CASE <id> / CLS space|digit <every code point the real `re` matches with \\s resp. [0-9]> / END
 """
 from __future__ import annotations
 
@@ -36,7 +43,8 @@ from . import common as C
 
 SECTIONS = ["metadata", "imports", "constants", "string_constants", "aliases", "host_ids", "module_ids",
             "struct_defs", "message_defs"]
-HOWS = ["rel", "dot", "abs", "dotdot", "symlink"]
+HOWS = ["rel", "dot", "abs", "dotdot", "symlink", "dotdot_missing", "dslash", "abs_dotdot", "abs_dslash", "through_file",
+        "trail_dot", "up_down"]
 
 # --------------------------------------------------------------------------------------------------
 # the shipped core definitions, read with ruamel directly (NOT with pyrtma's parser)
@@ -54,6 +62,7 @@ def _file_from_yaml(path: Path, index_of: Dict[Path, int]) -> Dict[str, Any]:
     data = _yaml_load(path.read_text()) or {}
     f = new_file(path.name)
     f["abs"] = str(path)
+    f["itexts"] = [str(imp) for imp in data.get("imports") or []]
     for imp in data.get("imports") or []:
         tgt = (path.parent / imp).resolve()
         f["imports"].append({"kind": "file", "target": index_of[tgt], "how": "rel"})
@@ -169,28 +178,46 @@ def file_text(f: Dict[str, Any], import_strings: List[str]) -> str:
     return "\n".join(out) + "\n"
 
 
-def materialise(case: Dict[str, Any], base: Path) -> Path:
-    """Write the tree, return the path string to hand to Parser.parse."""
+def materialise(case: Dict[str, Any], base: Path) -> Tuple[Any, Dict[str, Any]]:
+    """Write the tree; returns (what to hand to Parser.parse, layout) — `layout` describes the file system that was built
+    (resolved paths, the import texts as written, directories, links) for the model, which resolves the texts itself."""
     files = case["files"]
     real = [base / f["path"] for f in files]
     for p in real:
         p.parent.mkdir(parents=True, exist_ok=True)
     nlink = 0
+    layout: Dict[str, Any] = {"files": [str(p) for p in real], "itexts": [], "dirs": [], "links": [], "others": []}
 
-    def how_path(importer_dir: Path, target: Path, how: str) -> str:
+    def how_path(importer: Path, target: Path, how: str) -> str:
         nonlocal nlink
+        importer_dir = importer.parent
         if how == "abs":
             return str(target)
+        if how == "abs_dslash":
+            return "/" + str(target)
+        if how == "abs_dotdot":
+            return str(target.parent / "no_such_dir" / ".." / "." / target.name)
         if how == "symlink":
             link = base / f"link{nlink}.yaml"
             nlink += 1
             os.symlink(target, link)
+            layout["links"].append([str(link), str(target)])
             return os.path.relpath(link, importer_dir)
         rel = os.path.relpath(target, importer_dir)
         if how == "dot":
             return "./" + rel
         if how == "dotdot":
             return os.path.join("..", importer_dir.name, rel)
+        if how == "dotdot_missing":
+            return "no_such_dir/../" + rel
+        if how == "dslash":
+            return ".//" + rel.replace("/", "//")
+        if how == "through_file":
+            return importer.name + "/../" + rel
+        if how == "trail_dot":
+            return rel + "/."
+        if how == "up_down":
+            return "/".join([".."] * (len(importer_dir.parts) + 2)) + str(target)
         return rel
 
     for f, p in zip(files, real):
@@ -199,23 +226,51 @@ def materialise(case: Dict[str, Any], base: Path) -> Path:
             if imp["kind"] == "file":
                 t = imp["target"]
                 tgt = real[t] if t < len(real) else Path(core_files()[0][t - len(real)]["abs"])
-                strings.append(how_path(p.parent, tgt, imp["how"]))
+                strings.append(how_path(p, tgt, imp["how"]))
             elif imp["kind"] == "missing":
                 strings.append(f"no_such_file_{j}.yaml")
+            elif imp["kind"] == "wrongcase":        # the suffix test is case-blind, the file system is not
+                strings.append(os.path.splitext(p.name)[0] + ".YAML")
             elif imp["kind"] == "dir":
                 (p.parent / f"adir{j}").mkdir(exist_ok=True)
+                layout["dirs"].append(str(p.parent / f"adir{j}"))
                 strings.append(f"adir{j}")
+            elif imp["kind"] == "dir_yaml":         # a directory whose name ends in .yaml
+                (p.parent / f"adir{j}.yaml").mkdir(exist_ok=True)
+                layout["dirs"].append(str(p.parent / f"adir{j}.yaml"))
+                strings.append(f"./adir{j}.yaml/")
+            elif imp["kind"] == "through_file_missing":   # NotADirectoryError from chdir
+                strings.append(p.name + f"/x{j}.yaml")
+            elif imp["kind"] == "lexical_dir":      # a directory reached only lexically: IsADirectoryError from open
+                (p.parent / f"ldir{j}.yaml").mkdir(exist_ok=True)
+                layout["dirs"].append(str(p.parent / f"ldir{j}.yaml"))
+                strings.append(f"no_such_dir/../ldir{j}.yaml")
+            elif imp["kind"] == "empty":
+                strings.append("''")
             else:
                 (p.parent / f"notes{j}.txt").write_text("constants:\n  X: 1\n")
+                layout["others"].append(str(p.parent / f"notes{j}.txt"))
                 strings.append(f"notes{j}.txt")
         p.write_text(file_text(f, strings))
+        layout["itexts"].append(["" if x == "''" else x for x in strings])
     root = real[case["root"]]
     h = case.get("root_how", "abs")
+    layout["cwd"] = None            # the caller's cwd
     if h == "symlink":
         link = base / "rootlink.yaml"
         os.symlink(root, link)
-        return link
-    return root
+        layout["links"].append([str(link), str(root)])
+        layout["root_text"] = str(link)
+        return link, layout
+    if h in ("rel", "rel_up"):
+        here = base / "cwd_here" / "deeper" if h == "rel_up" else root.parent
+        here.mkdir(parents=True, exist_ok=True)
+        layout["dirs"].append(str(here))
+        layout["cwd"] = str(here)
+        layout["root_text"] = os.path.relpath(root, here) if h == "rel_up" else "./" + root.name
+        return layout["root_text"], layout
+    layout["root_text"] = str(root)
+    return root, layout
 
 
 # --------------------------------------------------------------------------------------------------
@@ -228,7 +283,10 @@ def run_real(case: Dict[str, Any]) -> Dict[str, Any]:
     base = Path(tempfile.mkdtemp(prefix="pyrtma_verif_c12_")).resolve()
     cwd = os.getcwd()
     try:
-        root = materialise(case, base / "t")
+        root, layout = materialise(case, base / "t")
+        if layout["cwd"] is not None:
+            os.chdir(layout["cwd"])
+        layout["cwd"] = os.getcwd()
         p = P.Parser(import_coredefs=bool(case["core"]))
         p.logger.handlers.clear()
         p.logger.addHandler(logging.NullHandler())
@@ -238,8 +296,8 @@ def run_real(case: Dict[str, Any]) -> Dict[str, Any]:
         except BaseException as e:  # noqa: BLE001 — every exception is an observation
             if isinstance(e, (KeyboardInterrupt, SystemExit)):
                 raise
-            return {"ok": False, "cls": type(e).__name__, "msg": str(e)[:160].replace(str(base), "<tmp>")}
-        obs = {"ok": True,
+            return {"ok": False, "cls": type(e).__name__, "msg": str(e)[:160].replace(str(base), "<tmp>"), "layout": layout}
+        obs = {"ok": True, "layout": layout,
                "M": list(p.metadata.keys()), "C": list(p.constants.keys()), "S": list(p.string_constants.keys()),
                "A": list(p.aliases.keys()), "H": [[k, v.value] for k, v in p.host_ids.items()],
                "D": [[k, v.value] for k, v in p.module_ids.items()], "T": list(p.struct_defs.keys()),
@@ -268,26 +326,27 @@ def _hex(s: str) -> str:
 
 
 def _entry_tok(e) -> str:
-    if e is None or isinstance(e, bool):
-        return "O"
+    if isinstance(e, bool):
+        return f"N{int(e)}"           # `isinstance(True, int)`: handle_reserve takes a YAML `true` as the id 1
     if isinstance(e, int):
         return f"N{e}"
-    return "S" + _hex(e)
+    if isinstance(e, str):
+        return "S" + _hex(e)
+    return "O"
 
 
 def _pairs(l) -> str:
     return " ".join(f"{n}={'?' if v is None else v}" for n, v in l)
 
 
-def file_block(f: Dict[str, Any]) -> List[str]:
-    core_name = 1 if os.path.basename(f["path"]) == "core_defs.yaml" else 0
-    out = [f"FILE {core_name} {1 if f['empty'] else 0}"]
+def file_block(f: Dict[str, Any], abs_path: str, itexts: List[str]) -> List[str]:
+    out = [f"PFILE {_hex(abs_path)} {1 if f['empty'] else 0}"]
     if f["empty"]:
         return out
     if f["mdata"]:
         out.append("M " + " ".join(f["mdata"]))
-    if f["imports"]:
-        out.append("I " + " ".join(f"f{i['target']}" if i["kind"] == "file" else i["kind"] for i in f["imports"]))
+    if itexts:
+        out.append("IT " + " ".join(_hex(t) or "-" for t in itexts))
     for tag, key in (("C", "consts"), ("S", "strs"), ("A", "aliases"), ("T", "structs")):
         if f[key]:
             out.append(tag + " " + " ".join(f[key]))
@@ -310,15 +369,17 @@ def file_block(f: Dict[str, Any]) -> List[str]:
 
 def protocol(cid: str, case: Dict[str, Any], obs: Dict[str, Any]) -> List[str]:
     cfiles, maxmsg = core_files()
-    n = len(case["files"])
-    lines = [f"CASE {cid} {1 if case['core'] else 0} {maxmsg} {case['root']} {n}"]
-    for f in case["files"]:
-        lines += file_block(f)
-    # the shipped core files are always appended (a user file may import them by absolute path)
+    lay = obs["layout"]
+    lines = [f"PCASE {cid} {1 if case['core'] else 0} {maxmsg}", f"CWD {_hex(lay['cwd'])}", f"ROOT {_hex(lay['root_text'])}",
+             f"COREPATH {_hex(cfiles[0]['abs'])}"]
+    lines += [f"DIR {_hex(d)}" for d in lay["dirs"]]
+    lines += [f"LINK {_hex(l)} {_hex(t)}" for l, t in lay["links"]]
+    lines += [f"OTHER {_hex(o)}" for o in lay["others"]]
+    for f, ap, it in zip(case["files"], lay["files"], lay["itexts"]):
+        lines += file_block(f, ap, it)
+    # the shipped core files are always part of the file system (a user file may import them by absolute path)
     for f in cfiles:
-        g = dict(f)
-        g["imports"] = [dict(i, target=i["target"] + n) for i in f["imports"]]
-        lines += file_block(g)
+        lines += file_block(f, f["abs"], f["itexts"])
     if obs["ok"]:
         lines.append("OBS ok")
         for tag in ("M", "C", "S", "A", "T"):
@@ -361,6 +422,141 @@ def drive(results) -> Tuple[Dict[str, Dict[str, Any]], Dict[str, str]]:
         if len(t) == 3 and t[1] == "INFO":
             info[t[0]] = t[2]
     return C.parse_driver(raw), info
+
+
+# --------------------------------------------------------------------------------------------------
+# the `_RESERVED_` entry syntax: the real pattern, the real `re`, the real handle_reserve
+# --------------------------------------------------------------------------------------------------
+
+MODELLED_PATTERN = r"\s*(?P<start>[0-9]+)\s*(\-|to)\s*(?P<end>[0-9]+)\s*"     # what Model/ResRegex.lean: rangeRe spells
+
+
+def reserve_pattern() -> Tuple[str, str]:
+    """(pattern, function) of the `re.<function>(<pattern literal>, e)` call inside Parser.handle_reserve, read from
+    the source by `ast` (not imported)"""
+    import ast
+    src = (C.REPO / "src" / "pyrtma" / "parser.py").read_text()
+    for node in ast.walk(ast.parse(src)):
+        if isinstance(node, ast.FunctionDef) and node.name == "handle_reserve":
+            for c in ast.walk(node):
+                if (isinstance(c, ast.Call) and isinstance(c.func, ast.Attribute) and isinstance(c.func.value, ast.Name)
+                        and c.func.value.id == "re" and c.args and isinstance(c.args[0], ast.Constant)
+                        and isinstance(c.args[0].value, str)):
+                    return c.args[0].value, c.func.attr
+    raise C.MachineryError("no re.<f>(<literal>, ...) call found in Parser.handle_reserve")
+
+
+_WS = [" ", " ", "  ", "\t", "\n", "\r", "\x0b", "\x0c", "\x1c", "\x1f", "\x85", "\xa0", "\u1680", "\u2000", "\u200a", "\u2028",
+       "\u2029", "\u202f", "\u205f", "\u3000", " \t ", ""]
+_NOT_WS = ["\u200b", "\u180e", "\ufeff", "_", ".", "\x00", "\x1b", "\u2060"]
+_SEPS = ["-", "to"]
+_BAD_SEPS = ["--", "\u2013", "\u2212", "To", "TO", "t o", "..", ":", "", "~", "- -", "t", "o", "ot", "until", "/"]
+_ODD_DIGITS = ["\u0661\u0662", "\uff11\uff12", "\u0967", "\u00b2", "\u2460"]     # digits for \d / str.isdigit(), not for [0-9]
+
+
+def rx_entries(rng, n: int) -> List[Any]:
+    """well-formed and ill-formed entries: every writing of a range, near misses, junk, non-strings"""
+    out: List[Any] = []
+
+    def num(big=False):
+        v = rng.choice([0, 1, 7, 99, 100, 101, 4999, 9999, 10000, 10001, rng.randrange(0, 12000)])
+        if big and rng.random() < 0.1:
+            v = rng.choice([1 << 31, 1 << 64, 10 ** 30])
+        return v
+
+    def digits(v):
+        return rng.choice(["", "", "", "0", "000"]) + str(v)
+    # directed
+    out += ["10-12", "10 to 12", "10to12", " 10  -\t12 ", "7 8 10-12-99", "10", "10 -- 12", "12-10", "1-101", "1-100", "5-5", "",
+            " ", "-", "to", "5-", "-5", "5to", "to5", "-5-7", "5 - -7", "+5-7", "5.0-7", "1e3-2e3", "0x10-0x20", "10-12\n", "\n10-12",
+            "10\n-\n12", "10\u00a0-\u00a012", "10\u3000to\u300012", "10\u200b-12", "a10-12b", "10-12-14", "10 11-12", "10 11 - 12 13",
+            "10-\u0661\u0662", "\uff11\uff10-12", "9999-10000", "10000-10001", "0-0", "00-000", "007-0012", "5 to6", "5t o6", "5 t-o 6",
+            "5-to-6", "5to-6", "5-to6", "to 5-6", "5--6", "5 -6", "5- 6", "1-2 3-4", "3-1 5-6", "x" * 50 + "5-6", "5-6" + "9" * 30,
+            "4294967296-4294967297", "18446744073709551616-18446744073709551617",
+            True, False, 0, 5, -5, 10000, 10001, 2.5, None, [5], {"a": 1}, 5.0, b"5-6"]
+    # every (ws, sep) combination once
+    for w in _WS:
+        for sp in _SEPS:
+            a = num(); b = a + rng.choice([0, 1, 3, 99])
+            out.append(f"{w}{a}{w}{sp}{w}{b}{w}")
+    while len(out) < n:
+        r = rng.random()
+        a = num(True); b = a + rng.choice([0, 0, 1, 2, 5, 50, 99, 100, 101]) if rng.random() < 0.85 else max(0, a - rng.randrange(1, 5))
+        ws = lambda: rng.choice(_WS)
+        if r < 0.35:      # well-formed, any blanks, leading zeros, optional junk around
+            pre = rng.choice(["", "", "", "ids ", "x", "7 8 ", "-", "to", "5 ", "5-", "\u0661"])
+            post = rng.choice(["", "", "", " incl", "-99", "to 7", "x", ".5", "\uff11", " 3"])
+            out.append(f"{pre}{ws()}{digits(a)}{ws()}{rng.choice(_SEPS)}{ws()}{digits(b)}{ws()}{post}")
+        elif r < 0.55:    # near misses
+            kind = rng.randrange(6)
+            if kind == 0:
+                out.append(f"{digits(a)}{ws()}{rng.choice(_BAD_SEPS)}{ws()}{digits(b)}")
+            elif kind == 1:
+                out.append(f"{digits(a)}{rng.choice(_NOT_WS)}{rng.choice(_SEPS)}{digits(b)}")
+            elif kind == 2:
+                out.append(f"{digits(a)}{rng.choice(_SEPS)}{rng.choice(_NOT_WS)}{digits(b)}")
+            elif kind == 3:
+                out.append(f"{rng.choice(_ODD_DIGITS)}{rng.choice(_SEPS)}{digits(b)}")
+            elif kind == 4:
+                out.append(f"{digits(a)}{rng.choice(_SEPS)}{rng.choice(_ODD_DIGITS)}")
+            else:
+                out.append(rng.choice([f"{digits(a)}", f"{digits(a)}{ws()}{rng.choice(_SEPS)}", f"{rng.choice(_SEPS)}{ws()}{digits(b)}"]))
+        elif r < 0.9:     # random strings over the alphabet of the pattern (the regex-equivalence fuzz)
+            alpha = "0123456789" + "  --tttooo" + "\t\n\xa0\u2003" + "xT_.\u0661"
+            out.append("".join(rng.choice(alpha) for _ in range(rng.randrange(0, 14))))
+        else:
+            out.append(rng.choice([num(True), -num(), True, False, 2.5, None, [num()], str(num())]))
+    return out
+
+
+def _rx_work(args) -> Dict[str, Any]:
+    entry, pattern, maxmsg = args
+    import re
+    from pyrtma import parser as P
+    rec: Dict[str, Any] = {"entry": entry if not isinstance(entry, bytes) else repr(entry)}
+    if isinstance(entry, str):
+        m = re.search(pattern, entry)
+        gd = m.groupdict() if m is not None else None
+        rec["re"] = None if gd is None or "start" not in gd or "end" not in gd else [int(gd["start"]), int(gd["end"])]
+    p = P.Parser(import_coredefs=False)
+    p.logger.handlers.clear(); p.logger.addHandler(logging.NullHandler()); p.logger.setLevel(logging.CRITICAL + 10)
+    p.root_path = Path("/nowhere"); p.current_file = Path("/nowhere/defs.yaml")
+    try:
+        p.handle_reserve("_RESERVED_", {"id": [entry]})
+        ids = [[k, int(v.type_id)] for k, v in p.message_defs.items()]
+        if [[k, int(v.value)] for k, v in p.message_ids.items()] != ids:
+            rec["ids_mismatch"] = True
+        rec["impl"] = {"ok": True, "ids": ids}
+    except BaseException as e:  # noqa: BLE001
+        if isinstance(e, (KeyboardInterrupt, SystemExit)):
+            raise
+        rec["impl"] = {"ok": False, "cls": type(e).__name__, "msg": str(e)[:120]}
+    finally:
+        logging.Logger.manager.loggerDict.pop(f"pyrtma.parser ({P.Parser._instance_count})", None)
+    return rec
+
+
+def rx_run(entries: List[Any]) -> Tuple[List[Dict[str, Any]], List[str], Dict[str, Any]]:
+    """-> (records, protocol lines, meta): every entry through the real `re.search(<pattern of the source>)` and the real
+    handle_reserve; the two character classes over every code point"""
+    import re
+    pattern, func = reserve_pattern()
+    _, maxmsg = core_files()
+    meta = {"pattern": pattern, "function": func, "pattern_is_the_modelled_one": pattern == MODELLED_PATTERN and func == "search"}
+    recs = [_rx_work((e, pattern, maxmsg)) for e in entries]
+    lines: List[str] = []
+    for k, r in enumerate(recs):
+        r["cid"] = f"x{k}"
+        e = entries[k]
+        reobs = "none" if r.get("re") is None else f"{r['re'][0]}:{r['re'][1]}"
+        impl = ("ok:" + (",".join(f"{n}={v}" for n, v in r["impl"]["ids"]) or "-")) if r["impl"]["ok"] else "err:" + r["impl"]["cls"]
+        lines += [f"CASE {r['cid']}", f"RX {maxmsg} {_entry_tok(e)} {reobs} {impl}", "END"]
+    for kind, pat in (("space", r"\s"), ("digit", r"[0-9]")):
+        cre = re.compile(pat)
+        pts = [i for i in range(0x110000) if not 0xd800 <= i <= 0xdfff and cre.fullmatch(chr(i))]
+        lines += [f"CASE cls_{kind}", f"CLS {kind} " + " ".join(map(str, pts)), "END"]
+        meta[f"class_{kind}_size"] = len(pts)
+    return recs, lines, meta
 
 
 # --------------------------------------------------------------------------------------------------
@@ -453,7 +649,7 @@ def base_case(adj: List[List[int]], core: bool, rng=None, filler: bool = True) -
             rng.shuffle(o)
             f["order"] = o
         files.append(f)
-    return {"core": core, "root": 0, "root_how": rng.choice(["abs", "symlink"]) if rng else "abs", "files": files}
+    return {"core": core, "root": 0, "root_how": rng.choice(["abs", "symlink", "rel", "rel_up"]) if rng else "abs", "files": files}
 
 
 def add_item(f: Dict[str, Any], item: Tuple[str, Any], front: bool = False):
@@ -583,7 +779,8 @@ def rand_case(rng, maxmsg: int, malformed: bool) -> Dict[str, Any]:
             if r < 0.04:
                 f["empty"] = True
             elif r < 0.10:
-                f["imports"].insert(rng.randrange(len(f["imports"]) + 1), {"kind": rng.choice(["missing", "dir", "badsuffix"])})
+                f["imports"].insert(rng.randrange(len(f["imports"]) + 1), {"kind": rng.choice(["missing", "dir", "badsuffix", "missing", "dir", "badsuffix", "wrongcase", "dir_yaml",
+                                                                                          "through_file_missing", "lexical_dir", "empty"])})
             elif r < 0.16:      # a repeated key inside one mapping
                 key = rng.choice(["consts", "strs", "aliases", "structs", "mdata"])
                 if f[key]:
@@ -637,11 +834,20 @@ def directed(maxmsg: int) -> List[Tuple[str, Dict[str, Any]]]:
     c["files"][0]["imports"] = [{"kind": "file", "target": 2, "how": "abs"}, {"kind": "file", "target": 1, "how": "rel"},
                                 {"kind": "file", "target": 3, "how": "abs"}]
     emit(c, "core:reimport")
-    # the same file through five differently written paths and from three importers
-    c = base_case([[1, 1, 1, 1, 1, 2], [2], [1, 0]], False)
-    for imp, h in zip(c["files"][0]["imports"], HOWS):
-        imp["how"] = h
-    emit(c, "paths")
+    # the same file through every differently written path and from three importers, every way of naming the root
+    for rh in ("abs", "symlink", "rel", "rel_up"):
+        c = base_case([[1] * len(HOWS) + [2], [2] * len(HOWS), [1, 0] + [0] * len(HOWS)], False)
+        for f in c["files"]:
+            for imp, h in zip([i for i in f["imports"]][-len(HOWS):] if f is c["files"][2] else f["imports"], HOWS):
+                imp["how"] = h
+        c["root_how"] = rh
+        emit(c, "paths")
+    # what is not a definition file, one kind at a time, first / in the middle / after a good import
+    for kind in ("missing", "dir", "badsuffix", "wrongcase", "dir_yaml", "through_file_missing", "lexical_dir", "empty"):
+        for pos in (0, 1):
+            c = base_case([[1], []], False)
+            c["files"][0]["imports"].insert(pos, {"kind": kind})
+            emit(c, "notafile:" + kind)
     # the reserved block is looked up by its literal key
     for first in ("consts", "strs", "aliases", "structs"):
         c = base_case([[1], []], False)
